@@ -10,7 +10,9 @@ import (
 
 var boundaryInts = []string{"0", "1", "-1", "2", "-2", "5", "-5", "10", "100", "2147483647", "2147483648", "4294967295", "4294967296", "9223372036854775807", "-9223372036854775808", "9223372036854775806", "-9223372036854775807"}
 var nearInts = []string{" 1", "1 ", "+1", "01", "1.0", "0x10", "", "abc", "1e3", "-", "--1", "9223372036854775808", "-9223372036854775809", "１"}
-var floatArgs = []string{"1.5", "-0.25", "3e3", "0.5", "10", "-10", "0", "2.5e-1", "1e400", "inf", "nan", "abc", "", " 1", "1e2"}
+var floatArgs = []string{"1.5", "-0.25", "3e3", "0.5", "10", "-10", "0", "2.5e-1", "1e400", "inf", "nan", "abc", "", " 1", "1e2",
+	// results of a million and more / a ten-thousandth and less: where %g-style formatting switches to an exponent
+	"1e6", "1234567.5", "-2500000", "0.00001", "-0.00002", "1e15", "123456789012", "0.000125"}
 
 func pick(rng *rand.Rand, pool []string) string { return pool[rng.Intn(len(pool))] }
 
